@@ -306,7 +306,7 @@ func (s *Scope) cycleDetectedError(cycle []int) error {
 			})
 		}
 	}
-	return errCycleDetected{Path: path, scope: s}
+	return &errCycleDetected{Path: path, scope: s}
 }
 
 // Returns the root Scope that can be reached from this Scope.
